@@ -57,17 +57,34 @@ def transient(s: State) -> bool:
     return d["pw"] in ("SD", "BOOT") or d["pc"] > 0 or d["oc"] > 0 or d["fc"] > 0
 
 
+def coarse(s: State) -> State:
+    """The state with every countdown reduced to 'running or not' (the tour's default coverage unit: an operation at
+    every power state x component state x which timers are in flight; the exact remaining ticks are swept by the
+    thorough tier, which covers every edge of the exact graph)."""
+    return tuple((k, (v > 0) if k in ("pc", "oc", "fc") else v) for k, v in s)
+
+
+def coarser(s: State) -> State:
+    """`coarse` without the node's own countdown and reset flag: power state x component state x component timers in
+    flight (the unit of the quick tier of the checks whose oracle is expensive per step)."""
+    return tuple(kv for kv in coarse(s) if kv[0] not in ("pc", "rs"))
+
+
 def tour(g: Dict[str, Any], rng: random.Random, episode_len: int = 60, budget: Optional[int] = None,
-         only: Optional[set] = None) -> Tuple[List[List[str]], Dict[str, int]]:
-    """Episodes (lists of abstract actions) that together take every (state, action) edge (or `budget` of them,
-    or the edges whose action is in `only`)."""
+         only: Optional[set] = None, exact: bool = False, level: Optional[str] = None) -> Tuple[List[List[str]], Dict[str, int]]:
+    """Episodes (lists of abstract actions) that together take every (state, action) edge of the graph whose states are
+    taken modulo the coverage level: "exact" (every state of the model), "timers" (default: countdowns as running / not
+    running) or "coarse" (additionally without the node's countdown and reset flag) - or `budget` of them, or the edges
+    whose action is in `only`."""
     edges, init = g["edges"], g["init"]
+    level = level or ("exact" if exact else "timers")
+    key = {"exact": (lambda x: x), "timers": coarse, "coarse": coarser}[level]
     succ: Dict[State, List[Tuple[str, State]]] = {}
     for (s, a), t in edges.items():
         succ.setdefault(s, []).append((a, t))
     for s in succ:
         succ[s].sort()
-    want = {k for k in edges if only is None or k[1] in only}
+    want = {(key(k[0]), k[1]) for k in edges if only is None or k[1] in only}
     uncovered = set(want)
     episodes: List[List[str]] = [[]]
     cur = init
@@ -78,7 +95,7 @@ def tour(g: Dict[str, Any], rng: random.Random, episode_len: int = 60, budget: O
         if len(episodes[-1]) >= episode_len:
             return False
         episodes[-1].append(a)
-        uncovered.discard((cur, a))
+        uncovered.discard((key(cur), a))
         cur = edges[(cur, a)]
         taken += 1
         return True
@@ -87,7 +104,7 @@ def tour(g: Dict[str, Any], rng: random.Random, episode_len: int = 60, budget: O
         seen, q = {src: None}, deque([src])
         while q:
             s = q.popleft()
-            if any((s, a) in uncovered for a, _ in succ.get(s, [])):
+            if any((key(s), a) in uncovered for a, _ in succ.get(s, [])):
                 p = []
                 while seen[s] is not None:
                     ps, a = seen[s]
@@ -103,7 +120,7 @@ def tour(g: Dict[str, Any], rng: random.Random, episode_len: int = 60, budget: O
     limit = budget if budget is not None else len(want)
     covered0 = len(want)
     while uncovered and (covered0 - len(uncovered)) < limit:
-        here = [a for a, _ in succ.get(cur, []) if (cur, a) in uncovered]
+        here = [a for a, _ in succ.get(cur, []) if (key(cur), a) in uncovered]
         ok = True
         if here:
             stay = [a for a in here if edges[(cur, a)] == cur]  # first everything that does not leave this state
@@ -132,7 +149,7 @@ def tour(g: Dict[str, Any], rng: random.Random, episode_len: int = 60, budget: O
 # ---------------------------------------------------------------------------------------------------------------
 # binding to a real environment
 # ---------------------------------------------------------------------------------------------------------------
-TARGET = {"svc": ("b", "database-service"), "app": ("a", "web-browser"), "fs": ("b", "tourf")}
+TARGET = {"svc": ("b", "dns-server"), "app": ("a", "web-browser"), "fs": ("b", "tourf")}
 
 
 def scenario(facet: str, pow_dur: int = 2, flatten: bool = False, masking: bool = False) -> Tuple[Dict[str, Any], Dict[str, int]]:
@@ -144,7 +161,7 @@ def scenario(facet: str, pow_dur: int = 2, flatten: bool = False, masking: bool 
     node, comp = TARGET[facet]
     for n in cfg["simulation"]["network"]["nodes"]:
         if n["hostname"] == "b":
-            n["services"] = [{"type": "database-service"}, {"type": "web-server"}]
+            n["services"] = [{"type": "database-service"}, {"type": "web-server"}, {"type": "dns-server"}]
         if n["hostname"] == "a":
             n["applications"] = [{"type": "web-browser", "options": {"target_url": "http://192.168.2.2"}},
                                  {"type": "database-client", "options": {"db_server_ip": "192.168.2.2"}}]
@@ -176,7 +193,7 @@ def scenario(facet: str, pow_dur: int = 2, flatten: bool = False, masking: bool 
             add(f"node-folder-{v}", opt["folder"])
     comps = [{"type": "nodes", "label": "NODES", "options": {
         "hosts": [{"hostname": "a", "applications": [{"application_name": "web-browser"}, {"application_name": "database-client"}]},
-                  {"hostname": "b", "services": [{"service_name": "database-service"}, {"service_name": "web-server"}],
+                  {"hostname": "b", "services": [{"service_name": "dns-server"}, {"service_name": "web-server"}],
                    "folders": [{"folder_name": "tourf", "files": [{"file_name": "t.txt"}]}, {"folder_name": "database", "files": [{"file_name": "database.db"}]}]}],
         "routers": [{"hostname": "r"}], "firewalls": [], "num_services": 2, "num_applications": 2, "num_folders": 2, "num_files": 1,
         "num_nics": 1, "include_nmne": False, "include_num_access": True, "monitored_traffic": {"icmp": ["NONE"], "tcp": ["HTTP", "POSTGRES_SERVER"]},
